@@ -252,6 +252,7 @@ class Tracker:
                 "atClose": st["at_close"] or {"claimed": False, "up": False, "everOpened": False, "closedMood": "-",
                                               "listening": False},
                 "closeCalled": cl.close_called, "dead": bool(getattr(cl, "dead", False)),
+                "codeApi": list(cl.code_api),
                 "selfClosed": getattr(self, "self_closed", {}).get(name, "-"),
                 "verifier": verifier, "derived": dvals, "derivedDistinct": dd, "heard": st["heard"],
             }
